@@ -8,6 +8,7 @@
 From Coq Require Import List NArith Bool Arith.
 Import ListNotations.
 From PyccoloV Require Import gen.Switches model.Threads proofs.ThreadsProofs.
+From PyccoloV Require model.Thunk proofs.ThunkProofs.
 
 (* for every number of threads and emissions, every tracer configuration and EVERY schedule: what the main thread
    observes (its deliveries in order, its switches, its own progress) is what it observes under the schedule with all
@@ -36,6 +37,27 @@ Theorem C17_shared_switches_refuted :
 Proof. exact shared_switches_refuted. Qed.
 Print Assumptions C17_shared_switches_refuted.
 
+(* replaced statements (before_stmt handlers returning a replacement): the rewritten statement is
+       if <emit before_stmt>: <exec saved thunk>() else: <original statement>
+   and other threads may emit between the two halves.  model/Thunk.v: one step = one half; gen/Switches.v says, from
+   tracer.py and emit_event.py as they are NOW, whether the slot is per thread and on which tracers the emission stores.
+   For every assignment of multi-thread flags, every top tracer, all programs of all threads and EVERY schedule: what a
+   thread has done so far, followed by what its remaining statements do when it runs alone, is what it does alone, and
+   no thread has failed. *)
+Theorem C17_replaced_statements : forall multi top progs sched u,
+  let th := Thunk.threads (Thunk.run thunk_shared thunk_store_all multi top sched (Thunk.init progs)) u in
+  Thunk.outs th ++ map Thunk.spec_out (Thunk.todo th) = map Thunk.spec_out (progs u) /\ Thunk.dead th = false.
+Proof. exact ThunkProofs.local_threads_undisturbed. Qed.
+Print Assumptions C17_replaced_statements.
+
+(* the two defects of the pinned tree, kept as checked witnesses: a process-wide slot (the main thread fails), and a
+   per-thread slot stored only on tracers that may see the thread (a worker statement replaced below a main-only top tracer fails) *)
+Theorem C17_shared_slot_refuted :
+  Thunk.outs (Thunk.threads (Thunk.run true false (fun _ => true) 0 [0; 1; 0]%nat (Thunk.init (fun t => if t =? 0 then [Some 7%N] else [None]))) 0) = [Thunk.Fail] /\
+  Thunk.outs (Thunk.threads (Thunk.run false false (fun k => k =? 0) 1 [1; 1]%nat (Thunk.init (fun t => if t =? 1 then [Some 7%N] else []))) 1) = [Thunk.Fail].
+Proof. exact (conj ThunkProofs.shared_refuted ThunkProofs.visible_only_refuted). Qed.
+Print Assumptions C17_shared_slot_refuted.
+
 (* non-vacuity: the initial state of 3 threads is well formed; under the same interleaving that breaks shared
    switches, per-thread switches give the main thread both of its events *)
 Example C17_nonvacuous :
@@ -43,3 +65,6 @@ Example C17_nonvacuous :
   fst (fst (main_view false (run_sched false [{| multi_thread := false; allow_re := false; h_re := false |}] (init [2; 1]) w_sched)))
     = [(0, 0); (0, 0)].
 Proof. split; [reflexivity|vm_compute; reflexivity]. Qed.
+Example C17_replaced_nonvacuous :
+  Thunk.outs (Thunk.threads (Thunk.run thunk_shared thunk_store_all (fun _ => true) 0 [0; 1; 0; 1]%nat (Thunk.init (fun t => if t =? 0 then [Some 7%N] else [None; Some 3%N]))) 0) = [Thunk.Ran 7%N].
+Proof. vm_compute. reflexivity. Qed.
